@@ -153,3 +153,53 @@ pub fn set_knob(name: &'static str, v: Option<u64>) {
 pub fn knob(name: &'static str) -> Option<u64> {
     KNOBS.with(|k| k.borrow().get(name).copied())
 }
+
+// ---------------------------------------------------------------------------
+// Simulated transport seam
+// ---------------------------------------------------------------------------
+
+/// The only network a simulated node sees. Implemented by the simulator; every
+/// call may take simulated time, fail, or never complete.
+#[async_trait::async_trait]
+pub trait SimNet: Send + Sync {
+    /// Dial `addr` from the node whose transport id is `from`. Returns the remote
+    /// node's transport id (64 hex characters) once the connection is established.
+    async fn dial(&self, from: &str, addr: std::net::SocketAddr) -> Result<String, String>;
+    /// Hand one framed message (after the real wire framing) to the network.
+    async fn send(&self, from: &str, to: &str, frame: Vec<u8>) -> Result<(), String>;
+    /// The local side closed the connection.
+    async fn disconnect(&self, from: &str, to: &str);
+}
+
+/// Encode a wire frame exactly as the transport does (`WireMessage`, postcard).
+pub fn encode_wire(protocol: &str, data: Vec<u8>, from: &str, timestamp: u64) -> Vec<u8> {
+    let message = crate::network::WireMessage {
+        protocol: protocol.to_string(),
+        data,
+        from: from.to_string(),
+        timestamp,
+    };
+    postcard::to_stdvec(&message).unwrap_or_default()
+}
+
+/// Decode a wire frame: (protocol, data, from, timestamp).
+pub fn decode_wire(bytes: &[u8]) -> Option<(String, Vec<u8>, String, u64)> {
+    let m: crate::network::WireMessage = postcard::from_bytes(bytes).ok()?;
+    Some((m.protocol, m.data, m.from, m.timestamp))
+}
+
+/// Encode a request/response envelope as carried on `/rr/` protocols.
+pub fn encode_envelope(message_id: &str, is_response: bool, payload: Vec<u8>) -> Vec<u8> {
+    let e = crate::network::RequestResponseEnvelope {
+        message_id: message_id.to_string(),
+        is_response,
+        payload,
+    };
+    postcard::to_stdvec(&e).unwrap_or_default()
+}
+
+/// Decode a request/response envelope: (message id, is_response, payload).
+pub fn decode_envelope(bytes: &[u8]) -> Option<(String, bool, Vec<u8>)> {
+    let e: crate::network::RequestResponseEnvelope = postcard::from_bytes(bytes).ok()?;
+    Some((e.message_id, e.is_response, e.payload))
+}
